@@ -155,7 +155,8 @@ def run(ctx):
             # the innermost try whose *body* holds the call, and the innermost loop
             ti = next((i for i, (x, fld) in enumerate(chain) if isinstance(x, ast.Try) and fld == "body"), None)
             li = next((i for i, (x, _f) in enumerate(chain) if isinstance(x, (ast.For, ast.AsyncFor, ast.While)) or
-                       (isinstance(x, (ast.ListComp, ast.GeneratorExp, ast.SetComp, ast.DictComp)) and _f in ("elt", "key", "value"))), None)   # per element of a comprehension
+                       (isinstance(x, (ast.ListComp, ast.GeneratorExp, ast.SetComp, ast.DictComp)) and _f in ("elt", "key", "value")) or
+                       (isinstance(x, ast.comprehension) and _f == "ifs")), None)   # per element of a comprehension (element or filter)
             inside = ti is not None and li is not None and ti < li
             ctx.ob("C14.b", GETR, inside, "Response.construct is wrapped by a try that lies inside the per-frame loop",
                    func=GETR, file=f.module.rel, node=c,
